@@ -24,6 +24,7 @@ Events == Traces[tid].events
 Matches(e, r) == /\ e.name = r.name
                  /\ (e.name = "sample_tree" => e.sampler = r.sampler)
                  /\ (e.name = "append" => e.iter = r.iter)
+                 /\ ((e.name = "append" /\ "whole" \in DOMAIN r) => r.whole = whole)     \* the recorded tree holds all data <=> whole
 TraceNext == /\ phase # "done"
              /\ Next /\ UNCHANGED tid
              /\ \/ ev'.name = "skip" /\ l' = l
